@@ -29,6 +29,13 @@ PASS_THROUGH_PREFIX = (
 NOT_PASS = ("::downgrade", "::upgrade", "::strong_count", "::weak_count", "::ptr_eq", "::into_raw", "::as_ptr")
 
 
+PLUMBING_PREFIX = ("core::future::into_future::IntoFuture::into_future", "core::pin::")
+
+
+def is_plumbing(callee):
+    return callee is not None and any(callee.startswith(p) for p in PLUMBING_PREFIX)
+
+
 def is_pass_through(callee):
     if callee is None:
         return False
@@ -242,7 +249,10 @@ class Body:
 
     def _origins_call(self, t, bi, proj, through_calls, seen):
         callee = t.get("callee")
-        if through_calls and is_pass_through(callee) and t["args"]:
+        if through_calls == "plumbing":
+            if is_plumbing(callee) and t["args"]:
+                return self.origins_operand(t["args"][0], proj, through_calls, seen)
+        elif through_calls and is_pass_through(callee) and t["args"]:
             pr = proj
             return self.origins_operand(t["args"][0], pr, through_calls, seen)
         if callee == "core::future::future::Future::poll" or (callee or "").endswith("::poll_unpin") or (callee or "").endswith("Future::poll"):
@@ -345,15 +355,18 @@ class Body:
     def call_at(self, o):
         return self.blocks[o.site[0]]["t"]
 
-    def polled_future_origins(self, poll_bb):
+    def polled_future_origins(self, poll_bb, plumbing=False):
         t = self.blocks[poll_bb]["t"]
-        return self.origins(t["args"][0])
+        return self.origins(t["args"][0], through_calls=("plumbing" if plumbing else True))
 
     def awaited_calls(self, poll_bb):
         """terminators of the calls that produced the future polled at poll_bb"""
         out = []
-        for o in self.polled_future_origins(poll_bb):
-            if o.kind == "call":
+        seen = set()
+        # the call that made the awaited future: first the outermost one (e.g. fut.map(..)), then what it wraps
+        for o in list(self.polled_future_origins(poll_bb, plumbing=True)) + list(self.polled_future_origins(poll_bb)):
+            if o.kind == "call" and o.site[0] not in seen:
+                seen.add(o.site[0])
                 out.append((o.site[0], self.call_at(o)))
         return out
 
@@ -372,6 +385,21 @@ class Body:
                 if p[0] == local:
                     out.append((bi, None, "term", t))
         return out
+
+    def on_all_paths_to_return(self, bb):
+        """True iff every normal path from the entry to a Return passes through block bb"""
+        seen = set()
+        st = [0]
+        while st:
+            x = st.pop()
+            if x in seen or x == bb or self.is_cleanup(x):
+                continue
+            seen.add(x)
+            if self.blocks[x]["t"]["k"] == "return":
+                return False
+            for s in self.succs(x, unwind=False):
+                st.append(s)
+        return True
 
     def reachable_from(self, bb, unwind=False, stop=None):
         seen = set()
